@@ -3,7 +3,7 @@
    world reached by an ARBITRARY op sequence (new / backoff with any observed sleep / clone / fork /
    update-using-forked / reset / reset-max-sleep / cancel / kill), see Model.v. *)
 From Coq Require Import ZArith List Bool.
-From Verif Require Import Backoff.Model Backoff.ProofsBase Backoff.ProofsStep Backoff.ProofsInv Backoff.ProofsAcct Backoff.ProofsExt Backoff.ProofsCtx Backoff.ProofsWorker.
+From Verif Require Import Backoff.Model Backoff.ProofsBase Backoff.ProofsStep Backoff.ProofsInv Backoff.ProofsAcct Backoff.ProofsExt Backoff.ProofsCtx Backoff.ProofsWorker Backoff.ProofsTree Backoff.ProofsDomain.
 Import ListNotations.
 Open Scope Z_scope.
 
@@ -85,7 +85,7 @@ Theorem C20_fork_clone_start : forall e w i b, nth_error (w_bos w) i = Some b ->
     counters nb = counters b /\ b_max nb = b_max b /\ b_vars nb = b_vars b /\ b_parent nb = b_parent b /\ b_fn nb = [] /\
     b_live nb = true /\ b_noop nb = false /\ b_ctx nb = b_ctx b /\ w_ctxs w' = w_ctxs w /\
     (forall k x, nth_error (w_bos w) k = Some x -> nth_error (w_bos w') k = Some x)).
-Proof. intros. split; [apply fork_start|apply clone_start]; auto. Qed.
+Proof. exact fork_clone_start. Qed.
 Print Assumptions C20_fork_clone_start.
 
 (* UpdateUsingForked in any reachable world, along a parent chain of any length: the ancestor's counters
@@ -168,7 +168,7 @@ Print Assumptions C20_no_overflow_62.
    exponent <= 62), beyond the result is the cap whatever the float product is (finite or +Inf) *)
 Theorem C20_expo_saturates : forall base cap n, 1 <= base -> cap < 2 ^ 62 -> 0 <= n ->
   expo base cap n = expo base cap (Z.min n 62) /\ (62 <= n -> expo base cap n = cap).
-Proof. intros. split; [apply expo_min62|intros; apply expo_sat62]; auto. Qed.
+Proof. exact expo_saturates. Qed.
 Print Assumptions C20_expo_saturates.
 
 Theorem C20_expo_arg_exact : forall base n, 0 <= base < 2 ^ 53 -> 0 <= n <= 62 ->
@@ -231,6 +231,61 @@ Theorem C20_worker_pattern : forall e w i b n wops k,
     b_max b4 = b_max b.
 Proof. exact worker_pattern. Qed.
 Print Assumptions C20_worker_pattern.
+
+(* Merge accounting for trees of ANY depth (generalises C20_merge_sum / C20_worker_pattern): fork i, then a descent of
+   levels — at each level arbitrary frame ops (back-offs anywhere but on i, forks and clones of anything) and then the
+   tip is forked (true) or cloned (false), the new node is the next tip — then more frame ops, then
+   bos[i].UpdateUsingForked(last tip).  The walk up forked.parent finds i, and i ends with its accounting at the first
+   fork plus, per level, the sleeps the tip of that level made before the next node was taken from it, plus the last
+   tip's sleeps: nothing else in the tree is counted, nothing on the path is lost.  [tree_ord] (parents are older) holds
+   in every reachable world (reach_tree_ord). *)
+Theorem C20_merge_sum_tree : forall e w i b lv fin,
+  tree_ord (w_bos w) -> nth_error (w_bos w) i = Some b -> b_live b = true ->
+  Forall (fun l : level => Forall (frame_op i) (fst l)) lv -> Forall (frame_op i) fin ->
+  let r := descend e (fst (step e w (OFork i))) (length (w_bos w)) lv in
+  let t := snd (fst r) in
+  let wl := run_logi e (fst (fst r)) fin in
+  let lg := snd r ++ for_idx t (snd wl) in
+  let w5 := fst (step e (fst wl) (OMerge i t)) in
+  exists b5, nth_error (w_bos w5) i = Some b5 /\
+    b_total b5 = b_total b + sum_all lg /\
+    b_excl b5 = b_excl b + sum_if (is_excl e) lg /\
+    (forall n, zget n (b_sleep b5) = zget n (b_sleep b) + sum_if (Z.eqb n) lg /\
+               zget n (b_times b5) = zget n (b_times b) + cnt_if (Z.eqb n) lg) /\
+    b_max b5 = b_max b /\ b_fn b5 = b_fn b.
+Proof. exact merge_sum_tree. Qed.
+Print Assumptions C20_merge_sum_tree.
+
+(* ---------- domain guards: where the model answers RBad, the code panics (driver class "domain") ---------- *)
+(* withVars: `b.maxSleep > 0 && math.MaxInt32/b.vars.BackOffWeight >= b.maxSleep` — integer divide by zero for
+   BackOffWeight = 0 (NewBackofferWithVars and ResetMaxSleep with a positive budget).  The model is conservative for
+   ONew: RBad also when the budget is <= 0, where the code short-circuits and does not divide. *)
+Theorem C20_domain_weight0 : forall e w v x,
+  nth_error (w_vars w) v = Some x -> v_weight x = 0 ->
+  (forall m, step e w (ONew m v 0) = (w, RBad)) /\
+  (forall i b m, nth_error (w_bos w) i = Some b -> b_live b = true -> 0 < m -> b_vars b = Some v ->
+                 step e w (OResetMax i m) = (w, RBad)).
+Proof. exact domain_weight0. Qed.
+Print Assumptions C20_domain_weight0.
+
+(* NewNoopBackoff ("create a Backoffer do nothing just return error directly") has vars = nil and noop = true.
+   It returns the caller's error and changes nothing; Fork / Clone copy vars (nil) but NOT the noop flag, so the copy
+   is an ordinary unlimited back-offer that really sleeps; on a back-offer with nil vars ResetMaxSleep(>0) and the
+   first back-off of a txnLockFast-named kind are outside the model's domain (the code dereferences nil vars). *)
+Theorem C20_domain_noop : forall e w i b,
+  nth_error (w_bos w) i = Some b -> b_live b = true ->
+  (b_noop b = true -> cancelled w (b_ctx b) = false ->
+     forall c maxms errid s, step e w (OBackoff i c maxms errid s) = (w, RErrOrig)) /\
+  (b_noop b = true -> b_vars b = None ->
+     (exists nb, nth_error (w_bos (fst (step e w (OFork i)))) (length (w_bos w)) = Some nb /\ b_noop nb = false /\ b_vars nb = None /\ b_max nb = b_max b) /\
+     (exists nb, nth_error (w_bos (fst (step e w (OClone i)))) (length (w_bos w)) = Some nb /\ b_noop nb = false /\ b_vars nb = None /\ b_max nb = b_max b)) /\
+  (b_vars b = None -> forall m, 0 < m -> step e w (OResetMax i m) = (w, RBad)) /\
+  (b_vars b = None -> cancelled w (b_ctx b) = false -> b_noop b = false ->
+     forall c maxms errid s, (0 <? b_max b) && exceeded e b (c_name c) = false ->
+       existsb (Z.eqb (c_name c)) (e_lfnames e) = true -> aget (c_name c) (b_fn b) = None ->
+       step e w (OBackoff i c maxms errid s) = (w, RBad)).
+Proof. exact domain_noop. Qed.
+Print Assumptions C20_domain_noop.
 
 (* ---------- non-vacuity ---------- *)
 Definition ex_env := mkEnv [(4, 600000)] [6].
@@ -295,3 +350,20 @@ Example ex_clone_of_parent_not_merged :
   step ex_env w (OMerge 0 2) = (w, RNone) /\
   (exists b, nth_error (w_bos w) 0 = Some b /\ b_total b = 0) /\ (exists f, nth_error (w_bos w) 2 = Some f /\ b_total f = 2 /\ b_parent f = None).
 Proof. vm_compute. repeat split; eexists; repeat split. Qed.
+(* two-level fork (the shape of rawkv's batch requests and of seed C20-3): 0 -> fork 1 -> fork 2; 2 sleeps 75+150 after
+   1 slept 2 before forking; 1 sleeps 2 more afterwards (not inherited); merging 2 into 0 gives 2+75+150 *)
+Example ex_two_level_merge : exists b, nth_error (w_bos (run ex_env init_world
+    [ONewVars 1 10; ONew 4000 1 0; OFork 0; OBackoff 1 regionMiss (-1) 1 2; OFork 1;
+     OBackoff 2 txnLock (-1) 2 75; OBackoff 1 regionMiss (-1) 3 4; OBackoff 2 txnLock (-1) 4 150; OMerge 0 2])) 0 = Some b /\
+    b_total b = 227 /\ zget 3 (b_sleep b) = 2 /\ zget 2 (b_sleep b) = 225 /\ zget 3 (b_times b) = 1.
+Proof. eexists. vm_compute. repeat split. Qed.
+Example ex_descend_shape : (* the same run, written as the descent of C20_merge_sum_tree *)
+  let w := run ex_env init_world [ONewVars 1 10; ONew 4000 1 0] in
+  let r := descend ex_env (fst (step ex_env w (OFork 0))) 1 [([OBackoff 1 regionMiss (-1) 1 2], true)] in
+  snd (fst r) = 2%nat /\ snd r = [(3, 2)].
+Proof. vm_compute. split; reflexivity. Qed.
+Example ex_domain_weight0 : snd (step ex_env (run ex_env init_world [ONewVars 0 10]) (ONew 100 1 0)) = RBad.
+Proof. vm_compute. reflexivity. Qed.
+Example ex_domain_noop_fork_sleeps : exists b, nth_error (w_bos (run ex_env init_world
+    [ONew 0 0 2; OFork 0; OBackoff 0 regionMiss (-1) 1 2; OBackoff 1 regionMiss (-1) 2 2])) 1 = Some b /\ b_total b = 2 /\ b_noop b = false.
+Proof. eexists. vm_compute. repeat split. Qed.
